@@ -82,6 +82,7 @@ RateClauses(e) ==
                  /\ Ok(e.twice) /\ SameRate(e.twice.ok, g)),
           Cl("C18.total.rate", knq /\ allref /\ claim, ok),
           Cl("C10.rate_mixed_units_panic", mixedNoRef, ~ok),
+          Cl("C13.defined", knq /\ ~mixedNoRef /\ inr, ok),          \* in-range operands: the operation yields a value
           Cl("C13.unit", knq /\ ok, e.out.ok.u = ru),
           Cl("C13.value", knq /\ ok /\ inr,
                  IsFin(e.out.ok.a) /\ RateMulWithin(num, den, so, e.q.a, sq, e.out.ok.a)),
